@@ -1,5 +1,6 @@
 /- World requests of PROTOCOL.md answered by the model (`AutosarVerif/Model/World*.lean`). -/
 import AutosarVerif.Model.WorldQuery
+import AutosarVerif.Model.Sort
 import Driver.Proto
 
 namespace AV.WDriver
@@ -19,8 +20,8 @@ def parseVal (s : String) : Option CDv :=
   | ["F", h] => ((bytesOfHex h).map fun b => b.foldl (fun a x => a * 256 + x.toNat) 0).map .float
   | _ => none
 
-def newModel (S : Spec) : Model :=
-  { rootHdr := { id := 0, name := S.defName S.rootDef, ety := S.ety S.rootDef, parent := .none, attrs := [], files := [], comment := none }
+def newModel (S : Spec) (rootAttrs : List (Nat × CDv)) : Model :=
+  { rootHdr := { id := 0, name := S.defName S.rootDef, ety := S.ety S.rootDef, parent := .none, attrs := rootAttrs, files := [], comment := none }
     rootKids := .nil, rootIssued := false, files := [], index := [], refs := [] }
 
 def emptyWorld : World := { models := [], nextId := 0, nextFile := 0, dead := [] }
@@ -42,12 +43,12 @@ def opMkFile (w : World) (k : Nat) (name : Bytes) (ver : Nat) (validVersion : Bo
 
 def sh (r : World × Ans) : World × String := (r.1, r.2.show)
 
-def step (S : Spec) (V : Env) (validVer : Nat → Bool) (w : World) (ws : List String) : Option (World × String) :=
+def step (S : Spec) (V : Env) (validVer : Nat → Bool) (rootAttrs : List (Nat × CDv)) (w : World) (ws : List String) : Option (World × String) :=
   let E := parseHandle 'e'
   let M := parseHandle 'm'
   match ws with
   | ["reset"] => some (emptyWorld, "ok")
-  | ["newmodel"] => some ({ w with models := w.models ++ [newModel S] }, s!"ok m{w.models.length}")
+  | ["newmodel"] => some ({ w with models := w.models ++ [newModel S rootAttrs] }, s!"ok m{w.models.length}")
   | ["mkfile", m, n, v] =>
     match M m, bytesOfHex n, v.toNat? with
     | some k, some nm, some ver => some (opMkFile w k nm ver (validVer ver))
@@ -88,6 +89,13 @@ def step (S : Spec) (V : Env) (validVer : Nat → Bool) (w : World) (ws : List S
     | some p, some x => some (sh (opCopy S V w p x none)) | _, _ => some (w, "bad-op")
   | ["copy", p, x, q] => match E p, E x, q.toNat? with
     | some p, some x, some q => some (sh (opCopy S V w p x (some q))) | _, _, _ => some (w, "bad-op")
+  | ["sort", x] => match E x with
+    | some x => some (sh (opSort S V w x)) | none => some (w, "bad-op")
+  | ["sortm", m] => match M m with
+    | some k => match w.models[k]? with
+      | some mm => some (sh (opSort S V w mm.rootHdr.id))
+      | none => some (w, "bad-op")
+    | none => some (w, "bad-op")
   | ["comment", x, h] => match E x with
     | some x => some (sh (opComment w x (if h == "-" then none else bytesOfHex h))) | none => some (w, "bad-op")
   | ["path", x] => (E x).map fun x => (w, qPath S w x)
